@@ -330,6 +330,12 @@ class Interp:
             r = self.assume(cond)
             if r is not None:
                 return r
+            # the configuration may be stated on the complementary test (x is not None / x != c / x == c ...)
+            if cond[0] == "cmp" and cond[1] in ("is", "is not", "==", "!=", "<", ">=", ">", "<="):
+                comp = {"is": "is not", "is not": "is", "==": "!=", "!=": "==", "<": ">=", ">=": "<", ">": "<=", "<=": ">"}[cond[1]]
+                r = self.assume(("cmp", comp, cond[2], cond[3]))
+                if r is not None:
+                    return not r
         if cond[0] == "un" and cond[1] == "not":
             r = self.fold_truth(cond[2])
             return None if r is None else (not r)
@@ -404,7 +410,7 @@ class Interp:
         for k in list(a.keys()) + [k for k in b.keys() if k not in a]:
             va = a.get(k, ("undef", k))
             vb = b.get(k, ("undef", k))
-            out[k] = va if va == vb else ("phi", cond, va, vb)
+            out[k] = va if va == vb else mk_phi(cond, va, vb)
         return out
 
     @staticmethod
@@ -902,7 +908,7 @@ class Interp:
             return self.expr(n.body)
         if f is False:
             return self.expr(n.orelse)
-        return ("phi", c, self.expr(n.body), self.expr(n.orelse))
+        return mk_phi(c, self.expr(n.body), self.expr(n.orelse))
 
     def e_Lambda(self, n: ast.Lambda) -> Term:
         return ("unknown", "lambda " + ast.unparse(n))
@@ -1113,6 +1119,16 @@ class Interp:
 
 
 # ---------------------------------------------------------------------- helpers
+def mk_phi(cond: Term, a: Term, b: Term) -> Term:
+    """conditional value in canonical orientation: a test `x is None` / `not c` is turned into its positive counterpart with the
+    arms swapped, so `a if x is None else b` and `b if x is not None else a` are one term"""
+    if cond[0] == "cmp" and cond[1] == "is" and cond[3] == NONE:
+        return ("phi", ("cmp", "is not", cond[2], cond[3]), b, a)
+    if cond[0] == "un" and cond[1] == "not":
+        return mk_phi(cond[2], b, a)
+    return ("phi", cond, a, b)
+
+
 def mkbin(op: str, a: Term, b: Term) -> Term:
     """('bin', op, a, b) in the interpreter's canonical operand order (for building expected terms)."""
     if op in ("+", "*", "&", "|", "^") and Interp._commutes(op, a, b):
